@@ -83,7 +83,7 @@ func (c *Ctx) calleeCtx(site ssa.Instruction, cc *ssa.CallCommon) *Ctx {
 	if cal == nil || cal.Blocks == nil || fnPkg(cal) != c.E.P.Main && fnPkg(cal) != c.E.InlinePkg {
 		return nil
 	}
-	if c.inChain(cal) || c.Depth >= 8 {
+	if c.inChain(cal) || c.Depth >= 14 {
 		return nil
 	}
 	k := c.child(cal, site)
